@@ -133,6 +133,7 @@ def judge(out, behs, lines, tr, found, prop):
                        "a replayed schedule is a sequence of thread choices; a thread named while not runnable is skipped"]
     seen = set()
     f20 = [f for f in vlib.known_findings(prop) if f["id"] == "F20"]
+    f26 = [f for f in vlib.known_findings(prop) if f["id"] == "F26"]
     by_beh = {}
     cur = None
     for x in tr:
@@ -146,6 +147,9 @@ def judge(out, behs, lines, tr, found, prop):
             continue
         if f20 and is_f20(behs[b], rec, by_beh.get(b, [])):
             out.known_finding("F20", f20[0]["what"])
+            continue
+        if f26 and is_f26(behs[b], rec, by_beh.get(b, [])):
+            out.known_finding("F26", f26[0]["what"])
             continue
         seen.add(b)
         out.violation("scenario %s under schedule %s...: %s" % (behs[b]["name"], behs[b]["schedule"][:40], json.dumps({k: v for k, v in rec.items() if k != "round"})[:500]),
@@ -162,6 +166,14 @@ def is_f20(beh, rec, ops):
     first = min(inspan, key=lambda o: o["start"])
     others = [o for o in inspan if o["t"] != rec["t"] and o["start"] < rec["end"] and o["end"] > rec["start"]]
     return any(o is first or o["start"] <= first["end"] for o in others) or (first["t"] != rec["t"] and first["start"] < rec["end"] and first["end"] > rec["start"])
+
+
+def is_f26(beh, rec, ops):
+    """signature of known finding F26: the in-span emission overlaps a reload of the EnvFilter, i.e. its span instance may have
+    been created under the previous filter instance, which the new instance knows nothing about"""
+    if (beh.get("reload") or {}).get("kind") != "env" or rec.get("op") != "hit" or not rec.get("inspan") or rec.get("got") != 0:
+        return False
+    return any(o.get("op") == "reload" and o["start"] < rec["end"] and o["end"] > rec["start"] for o in ops)
 
 
 def replay(out, path):
